@@ -4,7 +4,7 @@
   listener maintains from announcements alone).  "Before it takes effect" is an ordering fact inside one
   Python call and is observed by the harness (the listener reads the netlist inside the callback).
 -/
-import Spydr.IR.EventsLemmas3
+import Spydr.IR.EventsLemmas5
 import Spydr.IR.Props.C14
 namespace Spydr.IR
 
@@ -19,15 +19,16 @@ def isVetoedCreate : Op → Bool
   | _ => false
 
 /-- **A listener that merely replays the announcements of a call holds the mirror of the new state.**
-    PARTIAL: proved for every call (the five plain bulk removals included) except three bulk variants and
-    re-pointing. Missing: (a) `remove_ports_from`, `remove_pins_from`, `disconnect_pins_from`: their
-    announcement lists (removals interleaved with implied disconnects) are modelled and compared with the
-    implementation, the fold over them is not proved;
-    (b) re-pointing re-keys outer pins BY POSITION in the port/pin lists, and positions/reorders are not
-    announced, so no order-free mirror can reproduce it (recorded as a finding). Full statement:
+    PARTIAL: proved for EVERY call, single and bulk (with their implied disconnect announcements),
+    compound constructors and top-instance wrapping, with one exception: re-pointing an instance that
+    already has a reference re-keys outer pins BY POSITION in the port/pin lists, and positions/reorders
+    are not announced, so no order-free mirror can reproduce it (recorded as an open finding). The other
+    hypothesis excludes the `create_child` whose add a naming listener vetoes (the half-built instance's
+    constructor announcements were made; nothing else happens).
+    Full statement:
     `∀ op, Inv s → (step s op).2 = .ok → replayAllM s.abs (eventsOf s nI op) = (step s op).1.abs`. -/
 theorem replay_mirror_partial (s : S) (nI : Nat) (op : Op) (h : Inv s) (hok : (step s op).2 = .ok)
-    (hnb : isBulk op = false) (hnr : isRepoint s op = false) (hveto : isVetoedCreate op = false) :
+    (hnr : isRepoint s op = false) (hveto : isVetoedCreate op = false) :
     replayAllM s.abs (eventsOf s nI op) = (step s op).1.abs := by
   cases op with
   | addLibrary n l pos veto =>
@@ -49,7 +50,7 @@ theorem replay_mirror_partial (s : S) (nI : Nat) (op : Op) (h : Inv s) (hok : (s
     | false => exact mirror_addPort s nI d p pos h hok
     | true => simp [step] at hok; split at hok <;> simp at hok
   | removePort d p => exact mirror_removePort s nI d p h hok
-  | removePortsFrom d ps => simp [isBulk] at hnb
+  | removePortsFrom d ps => exact mirror_removePortsFrom s nI d ps h hok
   | setPorts d ps => exact mirror_setPorts s nI d ps h hok
   | addCable d c pos veto =>
     cases veto with
@@ -71,7 +72,7 @@ theorem replay_mirror_partial (s : S) (nI : Nat) (op : Op) (h : Inv s) (hok : (s
     | true => simp [isVetoedCreate] at hveto
   | addPin p q pos => exact mirror_addPin s nI p q pos h hok
   | removePin p q => exact mirror_removePin s nI p q h hok
-  | removePinsFrom p qs => simp [isBulk] at hnb
+  | removePinsFrom p qs => exact mirror_removePinsFrom s nI p qs h hok
   | setPins p qs => exact mirror_setPins s nI p qs h hok
   | addWire c w pos => exact mirror_addWire s nI c w pos h hok
   | removeWire c w => exact mirror_removeWire s nI c w h hok
@@ -80,7 +81,7 @@ theorem replay_mirror_partial (s : S) (nI : Nat) (op : Op) (h : Inv s) (hok : (s
   | connectInner w q pos => exact mirror_connectInner s nI w q pos h hok
   | connectOuter w i q pos => exact mirror_connectOuter s nI w i q pos h hok
   | disconnect w r => exact mirror_disconnect s nI w r h hok
-  | disconnectFrom w rs => simp [isBulk] at hnb
+  | disconnectFrom w rs => exact mirror_disconnectFrom s nI w rs h hok
   | setWirePins w rs => exact mirror_setWirePins s nI w rs h hok
   | setRef i d =>
     cases d with
@@ -100,7 +101,7 @@ def mirrorStep (nI : Nat) (sm : S × M) (op : Op) : S × M :=
   ((step sm.1 op).1, replayAllM sm.2 (eventsOf sm.1 nI op))
 
 def Mirrorable (s : S) (op : Op) : Prop :=
-  isBulk op = false ∧ isRepoint s op = false ∧ isVetoedCreate op = false
+  isRepoint s op = false ∧ isVetoedCreate op = false
 
 /-- histories all of whose calls are mirrorable in the state they are made in -/
 def MirrorableRun (s : S) : List Op → Prop
@@ -116,11 +117,11 @@ theorem run_mirror_partial (nI : Nat) (ops : List Op) (s : S) (h : Inv s) (hm : 
   | nil => exact ⟨rfl, rfl⟩
   | cons op ops ih =>
     simp only [List.foldl, run]
-    obtain ⟨⟨hb, hr, hv⟩, hrest⟩ := hm
+    obtain ⟨⟨hr, hv⟩, hrest⟩ := hm
     have hstep : mirrorStep nI (s, s.abs) op = ((step s op).1, (step s op).1.abs) := by
       simp only [mirrorStep]
       by_cases hok : (step s op).2 = .ok
-      · rw [replay_mirror_partial s nI op h hok hb hr hv]
+      · rw [replay_mirror_partial s nI op h hok hr hv]
       · rw [refused_silent s nI op hok, refused_unchanged s op hok]; rfl
     rw [hstep]
     exact ih (step s op).1 (step_inv s op h) hrest
